@@ -1140,10 +1140,16 @@ def np_isinf(interp, st, a):
 
 @native
 def np_isfinite(interp, st, a):
-    def f(x):
+    table = getattr(interp, "nonfinite_when", {})
+
+    def f(x, depth=0):
         if is_sym(x):
-            c = getattr(interp, "nonfinite_when", {}).get(x.get_id())
-            return True if c is None else z_not(c)
+            c = table.get(x.get_id())
+            if c is not None:
+                return z_not(c)
+            if depth < 30 and z3.is_app_of(x, z3.Z3_OP_ITE):
+                return interp.A.ite(x.arg(0), f(x.arg(1), depth + 1), f(x.arg(2), depth + 1))
+            return True
         return not V.is_nonfinite(x)
     return elementwise1(interp, st, f, a, dtype="bool")
 
